@@ -31,6 +31,12 @@ type S2Case struct {
 	Kind   string    `json:"kind"`   // none | relabel-other | other-imap | other-imap-grow | drop-other | other-amount
 	Final1 [2]uint64 `json:"final1"` // final balances of sub-channel 1 by role [adversary, honest] (sum 7)
 	Pay    uint64    `json:"pay"`    // ordinary payment of the adversary to the honest party before
+	// Probe: before sub-channel 1 is finalised the adversary sends a VIRTUAL
+	// channel settlement proposal for sub-channel 1's funds (refused: it is no
+	// virtual channel) and then an ordinary update that replaces the first
+	// locked entry by a copy of the second one ("shift"), that drops the first
+	// entry ("drop-first") or that only pays ("pay": harmless control)
+	Probe string `json:"probe,omitempty"`
 }
 
 var s2Kinds = []string{"none", "relabel-other", "other-imap", "other-imap-grow", "drop-other", "other-amount"}
@@ -41,6 +47,7 @@ func drawS2Case(t *rapid.T) S2Case {
 	fm := uint64(rapid.IntRange(0, 7).Draw(t, "finalM"))
 	c.Final1 = [2]uint64{fm, 7 - fm}
 	c.Pay = uint64(rapid.IntRange(0, 5).Draw(t, "pay"))
+	c.Probe = rapid.SampledFrom([]string{"", "", "shift", "shift", "drop-first", "pay"}).Draw(t, "probe")
 	return c
 }
 
@@ -106,6 +113,75 @@ func runS2Case(c S2Case) *h.Outcome {
 		}
 	}
 	id1, id2 := subs[0].Params.ID(), subs[1].Params.ID()
+	// ---- a refused virtual channel settlement proposal must leave no trace
+	if c.Probe != "" {
+		o.Class("settle2:probe:" + c.Probe)
+		agreed := hch.State().Clone() // the harness's own record of the last agreed state
+		ps := agreed.Clone()
+		ps.Version++
+		v0 := subs[0].V0.State
+		ps.Balances[0][mI] = new(big.Int).Add(ps.Balances[0][mI], v0.Balances[0][mI])
+		ps.Balances[0][hI] = new(big.Int).Add(ps.Balances[0][hI], v0.Balances[0][hI])
+		var rest []channel.SubAlloc
+		for _, l := range ps.Locked {
+			if l.ID != id1 {
+				rest = append(rest, l)
+			}
+		}
+		ps.Locked = rest
+		_ = adv.Inject(hon, &client.VirtualChannelSettlementProposalMsg{
+			ChannelUpdateMsg: *upd(ps),
+			Final:            channel.SignedState{Params: subs[0].Params, State: v0.Clone(), Sigs: subs[0].V0.Sigs},
+		})
+		pr.Env.Quiesce(12*time.Millisecond, sim.HangLimit)
+		if got := hch.State(); got.Version != agreed.Version {
+			return fail("countersigned-unsafe:settle2:vc-settlement-of-sub-channel", "the honest client accepted a virtual channel settlement proposal for the funds of a sub-channel (not final, not virtual): version %d -> %d", agreed.Version, got.Version)
+		}
+		// then an ordinary update
+		ns := agreed.Clone()
+		ns.Version++
+		harmless := false
+		switch c.Probe {
+		case "shift": // [S1,S2] -> [S2,S2], balances untouched
+			var second channel.SubAlloc
+			for _, l := range agreed.Locked {
+				if l.ID == id2 {
+					second = l
+				}
+			}
+			for i := range ns.Locked {
+				if ns.Locked[i].ID == id1 {
+					ns.Locked[i] = *channel.NewSubAlloc(second.ID, channel.CloneBals(second.Bals), append([]channel.Index(nil), second.IndexMap...))
+				}
+			}
+		case "drop-first": // [S1,S2] -> [S2]
+			ns.Locked = rest
+		case "pay":
+			harmless = true
+			if ns.Balances[0][mI].Sign() > 0 {
+				ns.Balances[0][mI] = new(big.Int).Sub(ns.Balances[0][mI], big.NewInt(1))
+				ns.Balances[0][hI] = new(big.Int).Add(ns.Balances[0][hI], big.NewInt(1))
+			}
+		}
+		probeEnc := enc(ns)
+		send(upd(ns))
+		for _, e := range hon.Rec.Events() {
+			if e.Kind != "sigadded" || e.Chan != hch.ID() || int(e.SigIdx) != hI || e.Staged.State == nil || enc(e.Staged.State) != probeEnc {
+				continue
+			}
+			if _, _, same := lockedDiff(agreed.Locked, ns.Locked); !harmless && (!same || len(agreed.Locked) != len(ns.Locked)) {
+				return fail("countersigned-unsafe:settle2:probe-"+c.Probe, "after a refused virtual channel settlement proposal the honest client signed an ordinary update that edits the locked funds: agreed before %s, signed %s", lockedStr(agreed.Locked), lockedStr(ns.Locked))
+			}
+		}
+		if harmless && hch.State().Version != ns.Version {
+			return fail("harness-settle2", "the harmless payment after the refused proposal was not accepted (control)")
+		}
+		if got := hch.State(); !harmless {
+			if err := got.Equal(agreed); err != nil {
+				return fail("countersigned-unsafe:settle2:probe-"+c.Probe, "after a refused virtual channel settlement proposal and a refused ordinary update the honest client's ledger state differs from the last agreed state: %v (locked now %s, agreed %s)", err, lockedStr(got.Locked), lockedStr(agreed.Locked))
+			}
+		}
+	}
 	// ---- sub-channel 1 gets its final state
 	sub1H := hon.Channel(id1)
 	if sub1H == nil {
@@ -199,7 +275,7 @@ func runS2Case(c S2Case) *h.Outcome {
 			return fail("harness-settle2", "the correct settlement update was not accepted (control)")
 		}
 	}
-	o.Nontrivial = c.Kind != "none"
+	o.Nontrivial = c.Kind != "none" || (c.Probe != "" && c.Probe != "pay")
 	return o
 }
 
@@ -214,7 +290,7 @@ func lockedStr(l []channel.SubAlloc) string {
 	return out + "]"
 }
 
-const s2Rule = "the honest client H has a ledger channel with the adversary M that locks funds for two sub-channels (both opened by hand and funded correctly); sub-channel 1 gets a final state, H calls Settle on it, and M sends the settlement update on the parent: correct for sub-channel 1 (entry removed, final balances credited) but it also relabels the locked entry of sub-channel 2, gives it an index map, takes one unit out of it or drops it. Oracle: H signs the settlement only if it removes exactly the sub-allocation of sub-channel 1, leaves the other entry (identity, amounts, index map) as it is and credits exactly the final balances. non-trivial = the update touches the other entry"
+const s2Rule = "the honest client H has a ledger channel with the adversary M that locks funds for two sub-channels (both opened by hand and funded correctly); sub-channel 1 gets a final state, H calls Settle on it, and M sends the settlement update on the parent: correct for sub-channel 1 (entry removed, final balances credited) but it also relabels the locked entry of sub-channel 2, gives it an index map, takes one unit out of it or drops it. Oracle: H signs the settlement only if it removes exactly the sub-allocation of sub-channel 1, leaves the other entry (identity, amounts, index map) as it is and credits exactly the final balances. In two thirds of the cases the adversary first sends a VIRTUAL channel settlement proposal for sub-channel 1's funds (to be refused) and then an ordinary update that replaces the first locked entry by a copy of the second, drops it, or just pays (control): judged against the harness's own copy of the last agreed state. non-trivial = the update touches the other entry, or a probe other than the control"
 
 func TestSettleOtherLocked(t *testing.T) {
 	rec := h.Begin("C07", "settle2")
